@@ -57,6 +57,8 @@ def json_unrepresentable(spec: G.ModelSpec, exprs) -> str | None:
     for f, e in zip(spec.fields, exprs):
         if f.cat == "elements" and "XmlDate(" in e:
             return "compound choice that needs an intermediate simple type (documented JSON limitation)"
+        if f.cat == "wildcard" and "Other(" in e:
+            return "model instance in a wildcard: plain JSON carries neither its element name nor its type, and the decoder only tries the classes of the parent's typed element fields"
         if f.cat == "elements" and "Derived(" in e:
             return "subclass instance inside a compound field (documented: 'will not work for certain json roundtrips')"
     return None
